@@ -185,6 +185,17 @@ impl Report {
             self.inconclusive.push(why.into());
         }
     }
+    /// A single scenario given up by its generous wall-clock watchdog: neither
+    /// held nor violated. It is counted and listed in the evidence, but does not
+    /// make the whole check inconclusive (the rest was explored).
+    pub fn abandoned(&mut self, why: impl Into<String>) {
+        self.count("scenarios_abandoned_by_watchdog", 1);
+        let why = why.into();
+        let s = self.sets.entry("abandoned_scenarios".to_string()).or_default();
+        if s.len() < 20 {
+            s.insert(why);
+        }
+    }
     pub fn assume(&mut self, s: &str) {
         if !self.assumptions.iter().any(|a| a == s) {
             self.assumptions.push(s.to_string());
